@@ -14,6 +14,7 @@ RULE = ("all 27 table entries; per gate: matrix computable symbolically and nume
         "dagger and the additive group law on a tensor grid with 2*deg(residual)+1 points per parameter - which decides the identity for ALL real "
         "parameters; fixed relations exactly; history: all gates built in one process at exact int / negative / float / sympy values with every matrix held until the end. non-trivial = parametric gate with a certificate / a fixed relation between two different gates")
 RULE += ' Held history also at exact symbolic constants (pi, pi/2, 2pi, pi/3 ...: exact zeros of sin/cos) and tiny angles (1.5e-8, -4e-8, 3e-7).'
+RULE += ' Round 6: compound real expressions as parameters of every parametric gate (direct / bind / replace_params).'
 RULE += ' Round 5: every returned matrix must have the declared dimension before anything is computed with it; parameters as fractions.Fraction, signed zeros, large values; the same real values reached through compound expressions (theta+2u at u=0, two-step binds).'
 ASSUMPTIONS = ["sympy evaluates its own expressions at numbers correctly (lambdify/evalf)", "cut-off: a trigonometric polynomial of degree <= D vanishing on 2D+1 equispaced points vanishes identically",
                "grid residuals <= 1e-10 imply sup-norm residual <= 1e-10 * prod(2D_i+1)"]
@@ -53,6 +54,41 @@ def N(M, d=None, what=""):
     if d is not None and A.shape != (d, d):
         raise Viol({"ok": False, "msg": "%s: matrix has shape %s, the gate declares dimension %d" % (what, A.shape, d), "sig": "matrix:shape"})
     return A
+
+
+@viol_guard
+def expression_case(case):
+    """{'gate': name, 'npar': k, 'nq': q}: parameters given as COMPOUND real expressions (2*t, t + u, -t, t/3 + 0.1, cos(t), t*u) - directly and reached by binding a bare symbol to the
+    expression: the matrix is computable, has the declared dimension, is unitary at real assignments, and equals the bare-symbol matrix with the expression substituted"""
+    name, k, nq = case["gate"], case["npar"], case["nq"]
+    t, u = sympy.Symbol("t", real=True), sympy.Symbol("u", real=True)
+    slots = sympy.symbols("s0:%d" % k, real=True)
+    base = N_sym = get_gate(name, tuple(slots)).matrix
+    exprs = [2 * t, t + u, -t, t / 3 + 0.1, sympy.cos(t), t * u, t - u / 2, 3 * t + sympy.pi / 4, sympy.Rational(1, 2) * (t + 1)]
+    ops = 0
+    for rot in range(len(exprs)):
+        ps = tuple(exprs[(rot + 2 * i) % len(exprs)] for i in range(k))
+        for route in ("direct", "bind", "replace_params"):
+            try:
+                if route == "direct":
+                    g = get_gate(name, ps)
+                elif route == "bind":
+                    g = get_gate(name, tuple(slots)).bind(dict(zip(slots, ps)))
+                else:
+                    g = get_gate(name, tuple(0.5 for _ in ps)).replace_params(ps)
+                M = g.matrix
+            except Exception as e:  # noqa: BLE001
+                return {"ok": False, "msg": "%s%s (%s): the matrix of a gate whose parameters are compound expressions cannot be computed: %s: %s" % (name, ps, route, type(e).__name__, str(e)[:100]), "sig": "expr:matrix-raises", "ops": ops}
+            for asg in ({t: 0.37, u: -1.21}, {t: 2.9, u: 0.55}):
+                A = N(sympy.Matrix(M).subs(asg), 2 ** nq, "%s%s (%s)" % (name, ps, route))
+                E = N(sympy.Matrix(base).subs({s_: sympy.sympify(p).subs(asg) for s_, p in zip(slots, ps)}), 2 ** nq, name)
+                ops += 1
+                if not _close(A, E, atol=1e-10):
+                    return {"ok": False, "msg": "%s%s (%s) at %s is not the gate's matrix at the values of the expressions" % (name, ps, route, {str(a): b for a, b in asg.items()}),
+                            "expected": str(np.round(E, 5).tolist())[:300], "observed": str(np.round(A, 5).tolist())[:300], "sig": "expr:value", "ops": ops}
+                if not _close(A.conj().T @ A, np.eye(2 ** nq), atol=1e-10):
+                    return {"ok": False, "msg": "%s%s (%s) is not unitary at real values" % (name, ps, route), "sig": "expr:unitary", "ops": ops}
+    return {"ok": True, "nt": True, "ops": ops, "out": name}
 
 
 @viol_guard
@@ -283,7 +319,7 @@ def held_case(case):
     return {"ok": True, "nt": True, "ops": ops, "out": "held"}
 
 
-FUNCS = {"held": held_case, "gates": gate_case, "group_law": group_case, "relations": relation_case, "table": flags_case}
+FUNCS = {"expression_params": expression_case, "held": held_case, "gates": gate_case, "group_law": group_case, "relations": relation_case, "table": flags_case}
 
 
 def run(run):
@@ -296,6 +332,8 @@ def run(run):
             Section("table", [{"entry": list(e)} for e in TABLE], flags_case, desc="gate table entries exist with the listed arity"),
             Section("held", [{"order": "fwd"}, {"order": "rev"}], held_case, horizon=900, chunk=1, desc="one process: all gates at exact int/negative/float/sympy parameter values, all matrices held, then "
                     "checked (reported parameters, no aliasing between returned matrices, value, group law between held matrices)")]
+    secs.append(Section("expression_params", [{"gate": n, "npar": k, "nq": q} for n, k, q, _ in TABLE if k and n != "Delay"], expression_case, horizon=900, chunk=1,
+                        desc="every parametric gate with compound real expressions as parameters (directly, through bind, through replace_params): computable, declared dimension, unitary, = the bare-symbol matrix with the expression substituted"))
     run.run_sections(secs)
     cov = [s for s in run.sections.values()]
     cert = sum(s["extra"].get("certified", 0) for s in cov)
